@@ -190,6 +190,17 @@ impl Store {
         };
         match StoredStatus::read(&mut file) {
             Ok(status) => Ok(Some(status)),
+            Err(err) if !err.is_fatal() => {
+                // The file is truncated or garbled, most likely because we
+                // were interrupted while writing it. It will be re-written
+                // at the end of the next run, so we just pretend it isn’t
+                // there.
+                error!(
+                    "Ignoring unreadable store status file {}: {}",
+                    path.display(), err
+                );
+                Ok(None)
+            }
             Err(err) => {
                 error!("Failed to read store status file {}: {}",
                     path.display(), err
